@@ -5,9 +5,13 @@ seed=$1; tier=${2:-quick}
 export GOFLAGS=-mod=mod GOPROXY=off GOSUMDB=off GOTOOLCHAIN=local
 prop=$(python3 -c "import json;print(json.load(open('$seed/meta.json'))['property'])")
 pkg=$(python3 -c "import json;print(json.load(open('$seed/meta.json'))['pkg_dir'])")
+res="seed=$(basename $seed) prop=$prop"
+if [ "${SEED_CHECK_ONLY:-0}" = 1 ]; then
+  # regression mode: the seed was confirmed in an earlier round (clean/mutant demo, full suite); only re-run the check
+  res="$res clean_demo=(confirmed-earlier) mutant_demo=(confirmed-earlier) suite=(confirmed-earlier)"
+else
 wt=/tmp/wtv_$$
 git -C /repo worktree add -q $wt HEAD || exit 2
-res="seed=$(basename $seed) prop=$prop"
 cp $seed/demo_test.go $wt/$pkg/zz_seed_demo_test.go
 ( cd $wt && go test -count=1 -run TestSeedDemo ./$pkg/ >/tmp/seed_clean_$$.log 2>&1 ) && res="$res clean_demo=PASS" || res="$res clean_demo=FAIL"
 if git -C $wt apply $seed/patch.diff 2>/tmp/seed_apply_$$.log; then
@@ -18,6 +22,7 @@ else
   res="$res apply=FAILED"
 fi
 git -C /repo worktree remove --force $wt
+fi
 # run the check against the mutant in /repo
 if git -C /repo apply $seed/patch.diff; then
   /verif/bin/symgo check -p $prop -tier $tier -no-evidence > /tmp/seed_check_$$.log 2>&1
